@@ -4,6 +4,7 @@ import (
 	"bytes"
 	"fmt"
 	"os"
+	"reflect"
 	"runtime"
 	"strings"
 	"sync"
@@ -219,7 +220,13 @@ func runC09(cfg *config, res *monitor.Result) {
 				check := ""
 				var got []byte
 				var gerr error
-				switch c := r.Intn(14); {
+				switch c := r.Intn(15); {
+				case c == 14: // representation change only: empty containers become allocated-but-empty
+					if pokeEmpty(reflect.ValueOf(obj), t.md, 0) == 0 {
+						continue
+					}
+					mutated = true
+					trace = append(trace, "alloc-empty-containers")
 				case c < 5: // mutation
 					mu := randomMutation(r, g, model.ProtoReflect())
 					if mu == nil {
